@@ -872,7 +872,22 @@ func unescapeBackTickSpecialStr(l *syntax.Lexer, srcLiteral []rune) []rune {
 		}
 	}
 UNDONE_end:
-	// unescape the string fails, KEEP the original string to the final literal
+	// unescape the string fails, KEEP the original string to the final literal:
+	// the whole back-tick group as written, up to and including its closing back-tick, so that the closing
+	// back-tick is never taken for the start of another escape. A quote character, a line break or the end of
+	// the text ends the group early (that character is left to parseString).
+	if n := len(literalBuffer); n == 1 || literalBuffer[n-1] != BackTick {
+		for {
+			p := l.Peek()
+			if p == syntax.RuneEOF || p == syntax.RuneCR || p == syntax.RuneLF || syntax.ContainsRune(p, markQuotes) {
+				break
+			}
+			literalBuffer = append(literalBuffer, l.Next())
+			if p == BackTick {
+				break
+			}
+		}
+	}
 	return append(srcLiteral, literalBuffer...)
 }
 
